@@ -106,7 +106,7 @@ class Via:
 
 
 def _keep13(rule, key):
-    if rule in ("R1-provenance", "R2-group-role"):
+    if rule in ("R1-provenance", "R2-group-role", "R0-no-cut"):
         return True
     return rule == "R3-acceptance" and (key.endswith("/contains-documented") or "/call-form#" in key or key.endswith("/guarded-text-is-clean") or
                                         "/unit-matched-whole" in key)
@@ -117,6 +117,8 @@ def _keep14(rule, key):
         return False      # chr() calls are not among the statement's encodings
     if rule == "R2-xml-tokens" or rule == "R5-unescape":
         return True
+    if rule == "R0-no-cut":
+        return "CHR_RE" not in key
     if rule == "R3-provenance":
         return not key.endswith("/labels")
     return key.endswith("/contains-documented") or key.endswith("/pairs")
